@@ -16,7 +16,7 @@ fn fails_same(
 ) -> bool {
     let mut ctx = Ctx::new(false);
     ctx.listed_known = known.clone();
-    match scen.execute(plan, &mut ctx) {
+    match crate::core::run_plan(scen, plan, &mut ctx) {
         Err(v) => v.oracle == oracle,
         Ok(()) => false,
     }
